@@ -2,6 +2,7 @@
 import random
 
 import t1
+import vlib
 from emit import Q2
 from m3 import M3, SQ2, mandel_inputs, sym_of, q
 
@@ -143,7 +144,7 @@ def specs():
 
 
 def run(ck):
-    tracer = ck.cxx("c01trace", ["C01/trace.cxx", "/repo/src/Exception/ContractViolation.cxx"], opt="-O0")
+    tracer = ck.cxx("c01trace", ["C01/trace.cxx", vlib.REPO + "/src/Exception/ContractViolation.cxx"], opt="-O0")
     dag, units = t1.run_tracer(ck, tracer)
     ck.emit([dag], "TfelVerif.C01.Gen", "TfelVerif/C01/Gen.lean")
     res = ck.lean(PROPS, PROPS)
